@@ -85,9 +85,11 @@ def _value(v, dtype, native_dates):
     return v
 
 
-def to_dict(spec, native_dates=False, reverse_keys=False):
+def to_dict(spec, native_dates=False, reverse_keys=False, omit_empty=False):
+    """``omit_empty``: a foreign tool need not write child lists that are empty."""
     def order(d):
-        items = [(k, v) for k, v in d.items() if v is not None]
+        items = [(k, v) for k, v in d.items() if v is not None and
+                 not (omit_empty and k in ("properties", "sections") and v == [])]
         if reverse_keys:
             items.reverse()
         return dict(items)
